@@ -409,6 +409,34 @@ def doc_faults(rng, rule_doc, macro_files, rule_rel="rule.yaml", max_per_kind=6,
             if room("deref_no_main_reg:empty"):
                 add(f"deref_no_main_reg:empty@{_p(path)}", _edit(rule_doc, path + ("$deref",), {}), klass="deref_no_main_reg")
 
+    # the same faults one level deeper: a faulty group wrapped around / put next to a healthy node
+    if isinstance(pat, list):
+        ins_nodes = [(pth, nd) for pth, nd in nodes if len(pth) >= 2 and isinstance(pth[-1], int) and _is_instr_item_pos(pth[1:]) and isinstance(nd, (str, dict))
+                     and not (isinstance(nd, str) and nd.startswith("&"))]
+        op_nodes = [(pth, nd) for pth, nd in nodes if len(pth) >= 3 and isinstance(pth[-1], int) and not _is_instr_item_pos(pth[1:])
+                    and isinstance(nd, str) and not nd.startswith(("&", "@")) and "$deref" not in pth]
+        rng.shuffle(ins_nodes)
+        rng.shuffle(op_nodes)
+        for pth, nd in ins_nodes[:2]:
+            x = copy.deepcopy(nd)
+            add(f"empty_group:nested:$or_in_$and:ins@{_p(pth)}", _edit(rule_doc, pth, {"$and": [x, {"$or": []}]}), klass="empty_group")
+            add(f"empty_group:nested:$and_in_$or:ins@{_p(pth)}", _edit(rule_doc, pth, {"$or": [{"$and": []}, x]}), klass="empty_group")
+            add(f"empty_group:nested:$not_in_$or:ins@{_p(pth)}", _edit(rule_doc, pth, {"$or": [x, {"$not": []}]}), klass="empty_group")
+            add(f"empty_group:nested:$any_order_in_$and:ins@{_p(pth)}", _edit(rule_doc, pth, {"$and": [{"$and_any_order": []}, x]}), klass="empty_group")
+            add(f"not_arity:nested:2_in_$or:ins@{_p(pth)}", _edit(rule_doc, pth, {"$or": [{"$not": [rng.choice(DECOY_MN), rng.choice(DECOY_MN)]}, x]}), klass="not_arity")
+            add(f"not_arity:nested:2_in_$and:ins@{_p(pth)}", _edit(rule_doc, pth, {"$and": [x, {"$not": [rng.choice(DECOY_MN)] + list((hints or {}).get("win_mn") or [rng.choice(DECOY_MN)])}]}), klass="not_arity")
+            add(f"times_negative:nested:in_$or:ins@{_p(pth)}", _edit(rule_doc, pth, {"$or": [x, {rng.choice(DECOY_MN): {"times": -1}}], "times": -2}), klass="times_negative")
+        for pth, nd in op_nodes[:2]:
+            add(f"empty_group:nested:$and_in_$or:op@{_p(pth)}", _edit(rule_doc, pth, {"$or": [nd, {"$and": []}]}), klass="empty_group")
+            add(f"empty_group:nested:$or_in_$and:op@{_p(pth)}", _edit(rule_doc, pth, {"$and": [{"$or": []}, nd]}), klass="empty_group")
+            add(f"not_arity:nested:2_in_$or:op@{_p(pth)}", _edit(rule_doc, pth, {"$or": [{"$not": [rng.choice(DECOY_OP), nd]}, nd]}), klass="not_arity")
+            add(f"deref_no_main_reg:new:op@{_p(pth)}", _edit(rule_doc, pth, {"$deref": {"constant_offset": "0x10", "register_multiplier": "%rax", "constant_multiplier": 4}}), klass="deref_no_main_reg")
+        for pth, nd in nodes:
+            if isinstance(nd, dict) and isinstance(nd.get("$deref"), dict) and nd["$deref"].get("main_reg") is not None:
+                if room("nested_in_deref"):
+                    add(f"empty_group:nested:in_deref@{_p(pth)}", _edit(rule_doc, pth + ("$deref", "main_reg"), [{"$or": []}]), klass="empty_group")
+                    add(f"not_arity:nested:in_deref@{_p(pth)}", _edit(rule_doc, pth + ("$deref", "main_reg"), [{"$not": ["%xmm7", nd["$deref"]["main_reg"]]}]), klass="not_arity")
+
     # times: on every instruction-level item of the top-level pattern and of groups
     if isinstance(pat, list):
         item_paths = []
@@ -455,6 +483,11 @@ def doc_faults(rng, rule_doc, macro_files, rule_rel="rule.yaml", max_per_kind=6,
             if isinstance(path[-1], str) and path[-2:-1] == ("$deref",) and isinstance(node, (str, int)):
                 if room("undef:deref_value"):
                     add(f"undefined_macro:deref_value@{_p(path)}", _edit(rule_doc, path, UNDEF), klass="undefined_macro")
+            # as the argument of a parameterised macro call
+            if isinstance(node, dict) and len(node) > 1 and any(isinstance(k, str) and k.startswith("@") for k in node):
+                for k in node:
+                    if not k.startswith("@") and k != "times" and room("undef:macro_arg"):
+                        add(f"undefined_macro:macro_arg@{_p(path)}", _edit(rule_doc, path + (k,), UNDEF), klass="undefined_macro")
         # inside macro bodies (rule file and macro files), for macros that are actually used
         used = {n for _p2, n in nodes if isinstance(n, str) and n.startswith("@")} | {k for _p2, n in nodes if isinstance(n, dict) for k in n if isinstance(k, str) and k.startswith("@")}
         sources = [(rule_rel, rule_doc)] + [(rel, md) for rel, md in sorted(macro_files.items())]
